@@ -55,7 +55,7 @@ pub extern "C" fn {name}_work(x: u64) -> u64 {{
 
 /// The driver: calls liba_work (linked at start-up) `a1` times, dlopens libb and calls libb_work
 /// `b1` times, dlcloses it, calls liba_work `a2` times, dlopens libb again and calls it `b2` times.
-pub fn driver_program(toolchain: &str, liba: &Path, libb: &Path, counts: [u32; 4]) -> ProgramSpec {
+pub fn driver_program(toolchain: &str, liba: &Path, libb: &Path, libx: &Path, counts: [u32; 4]) -> ProgramSpec {
     let [a1, b1, a2, b2] = counts;
     let src = format!(
         r#"#![no_std]
@@ -75,6 +75,13 @@ unsafe extern "C" {{
 }}
 #[unsafe(no_mangle)] pub static mut TICK: u64 = 0;
 static LIBB: &[u8] = b"{libb}\0";
+static LIBX: &[u8] = b"{libx}\0";
+#[inline(never)]
+fn hold_x() {{
+    // a third library that stays loaded: it takes the address range the unloaded one had,
+    // so the reload below lands somewhere else
+    unsafe {{ if dlopen(LIBX.as_ptr(), 2).is_null() {{ exit(92); }} }}
+}}
 #[inline(never)]
 fn call_b(n: u64, acc: &mut u64) {{
     unsafe {{
@@ -99,11 +106,13 @@ pub extern "C" fn main(_argc: i32, _argv: *const *const u8) -> i32 {{
     call_b({b1}, &mut acc);
     i = 0;
     while i < {a2} {{ acc = acc.wrapping_add(unsafe {{ liba_work(i + 10) }}); i += 1; }}
+    hold_x();
     call_b({b2}, &mut acc);
     (acc % 200) as i32
 }}
 "#,
-        libb = libb.display()
+        libb = libb.display(),
+        libx = libx.display()
     );
     let dir = liba.parent().unwrap().display().to_string();
     ProgramSpec {
@@ -248,6 +257,8 @@ pub fn run(spec: &WorkerSpec) -> WorkerResult {
     let b_mode = tape.choose(3); // 0: deferred before start, 1: deferred at the first stop, 2: never
     let inner_too = tape.chance(1, 3);
     let do_finish = tape.chance(1, 3);
+    // ask again for the (then unloaded) dlopen library while stopped between its two lives
+    let redefer = tape.chance(1, 2);
     // (restart with breakpoints in a dlopen'ed library is not part of this leg: what the user
     // may expect of a breakpoint whose library is not mapped at the start of the new life is not
     // fixed by the property)
@@ -345,6 +356,7 @@ pub fn run(spec: &WorkerSpec) -> WorkerResult {
                 expected.push("liba_work");
             }
         }
+        let redefer_now = redefer && armed_b && a2 > 0 && armed_a;
         // stops in the library after it was unloaded and loaded again are accepted, not demanded
         // (the property speaks of the library appearing, not of re-arming across dlclose)
         let mandatory = expected.len() + if armed_b && b1 == 0 { 0 } else { 0 };
@@ -354,7 +366,8 @@ pub fn run(spec: &WorkerSpec) -> WorkerResult {
                 expected.push("libb_work");
             }
         }
-        let mandatory = if armed_b && !first_b_load_has_calls { mandatory } else { mandatory };
+        let first_a2_stop = if armed_a { (a1 + if armed_b { b1 } else { 0 }) as usize } else { usize::MAX };
+        let mandatory = if redefer_now { expected.len() } else { mandatory };
         let mut k = 0;
         loop {
             s.step += 1;
@@ -376,6 +389,15 @@ pub fn run(spec: &WorkerSpec) -> WorkerResult {
                     }
                     s.log.push(format!("  -> stop {} (expected in {})", k + 1, expected[k]));
                     s.check_stop(&dbg, reason, expected[k]);
+                    if redefer_now && k == first_a2_stop {
+                        // the library is unloaded right now: a breakpoint in it can only be deferred
+                        let _ = dbg.remove_breakpoint_at_fn("libb_work");
+                        if dbg.set_breakpoint_at_fn("libb_work").map(|v| v.is_empty()).unwrap_or(true) {
+                            dbg.add_deferred_at_function("libb_work");
+                        }
+                        bump(&mut s.stats, "c18.deferred_requested_between_two_loads");
+                        s.log.push("  break libb_work (deferred again, library currently unloaded)".into());
+                    }
                     if expected[k].starts_with("libb") {
                         bump(&mut s.stats, "c18.stops_in_dlopened_library");
                     } else {
@@ -421,11 +443,11 @@ pub fn run(spec: &WorkerSpec) -> WorkerResult {
 pub fn corpus(seed: u64, per_toolchain: usize) -> Vec<(ProgramSpec, compile::Built, String, String, [u32; 4])> {
     let mut out = vec![];
     for tc in ["1.89", "stable", "nightly"] {
-        let (Ok(a), Ok(b)) = (compile::build(&lib_program("liba", tc)), compile::build(&lib_program("libb", tc))) else { continue };
+        let (Ok(a), Ok(b), Ok(x)) = (compile::build(&lib_program("liba", tc)), compile::build(&lib_program("libb", tc)), compile::build(&lib_program("libx", tc))) else { continue };
         for k in 0..per_toolchain {
             let mut t = Tape::record(crate::rng::derive(seed, "prog.libdriver", (k * 7) as u64 + tc.len() as u64));
             let counts = [1 + t.choose(3) as u32, t.choose(3) as u32, t.choose(3) as u32, 1 + t.choose(2) as u32];
-            let p = driver_program(tc, &a.bin, &b.bin, counts);
+            let p = driver_program(tc, &a.bin, &b.bin, &x.bin, counts);
             if let Ok(built) = compile::build(&p) {
                 out.push((p, built, a.bin.to_string_lossy().to_string(), b.bin.to_string_lossy().to_string(), counts));
             }
